@@ -60,10 +60,14 @@ def probe_points(S, rng_seed=0):
 
 
 def call_values(S, pts):
+    """interpolated values at pts, obtained from a deep copy of the instance: the call itself fills the integrand's evaluation cache, which the
+    extend-split strategy uses as evaluation count of later areas (an interpolation between stop and continuation can therefore change the
+    continuation - observed for version 2; reported as drift by the 'continue-after-call' mode, not demanded by the property)"""
     if S['c']['strategy'] == 'cell':
         return None
+    import copy
     with impl.quiet(), impl.watchdog(120):
-        return np.asarray(S['combi'](pts), dtype=float)
+        return np.asarray(copy.deepcopy(S['combi'])(pts), dtype=float)
 
 
 def run(tier, seed):
@@ -96,6 +100,10 @@ def run(tier, seed):
                     if not errs[j] or errs[j] <= 0:
                         continue
                     lims = {'tol': float(errs[j]), 'min': 1, 'max': None}
+                if mode == 'continue-container' and c['strategy'] != 'dimwise':
+                    # extend-split / cell: benefits divide by evaluation counts taken from the integrand's cache, which a new call starts afresh -
+                    # the continuation through a new call is not comparable there (and the re-evaluated new areas are the recorded finding)
+                    continue
                 case = '%s interrupted after evaluation %d, %s' % (name, j + 1, mode)
                 try:
                     if mode in ('continue', 'continue-tol0', 'continue-container'):
